@@ -208,6 +208,25 @@ def run_c03(tier, seed):
             continue
         validated += 1
         distinct.add(c["desc"])
+    # a second connection whose client has stopped reading large replies: ITS replies may wait, this connection's may not
+    big = bytes((i * 17 + 3) % 251 for i in range(4000))
+    cases2 = []
+    for cap in (0, 64, 3000):
+        for nreq in (1, 4):
+            slow = [(1, "s%d" % cap), (1, "g" + L.hx(G.request_bytes("GET", [b"bigk"]) * nreq))]
+            mine = [("PING", []), ("ECHO", [b"x"]), ("GET", [b"k"])]
+            steps = slow + [(0, "f" + L.hx(G.request_bytes(nm, a))) for nm, a in mine] + [(1, "x"), (0, "e")]
+            cases2.append(dict(line=L.mkcase(steps, conns=2, tbl={"Get:" + L.hx(b"bigk"): "mb(" + L.hx(big) + ")", "Get:" + L.hx(b"k"): "mb(76)"}, default="ms(4f4b)", trace=False),
+                               expect=[b"+PONG\r\n", b"$1\r\nx\r\n", b"$1\r\nv\r\n"],
+                               desc="another client pipelines %d GET with 4 KB replies and does not read them (%d bytes of buffer left); meanwhile: PING ; ECHO x ; GET k" % (nreq, cap)))
+    for c in run_cases(chk, cases2):
+        o = c["iobs"]
+        res0, evs0 = o.conns[0]
+        got = [w[1] for w in L.writes_of(evs0)]
+        if res0 == "HANG" or "!HANG" in evs0 or got != c["expect"]:
+            chk.violation("stalled-by-other-client", "requests were not answered while %s: replies %s (%s)" % (c["desc"], got, res0), dict(case=c["line"], desc=c["desc"], impl=o.raw[:2000]))
+            continue
+        validated += 1
     if broken and not chk.violations:
         chk.violation("proof-broken", broken, dict(broken=broken, theorem="GRP.C03"), True)
     chk.coverage.update(
@@ -380,6 +399,32 @@ def run_c04(tier, seed):
             continue
         validated += 1
         distinct.add(c["desc"])
+    # a reply that is still on its way to a slow client while OTHER connections get their (differently framed) replies encoded and
+    # written: the bytes the slow client finally reads must be its own frame
+    big = bytes((i * 13 + 5) % 251 for i in range(6000))
+    cases2 = []
+    for cap in (1, 7, 100, 4000):
+        others = []
+        for j in range(24):
+            others.append((1 + j % 3, "f" + L.hx(G.request_bytes("MGET", [b"a%d" % j, b"b", b"c"]) + G.request_bytes("ECHO", [bytes([65 + j % 26]) * (50 + 97 * j)]))))
+        steps = [(0, "s%d" % cap), (0, "g" + L.hx(G.request_bytes("GET", [b"bigk"])))] + others + [(0, "u"), (0, "f" + L.hx(G.request_bytes("PING", []))), (0, "e"), (1, "e"), (2, "e"), (3, "e")]
+        cases2.append(dict(line=L.mkcase(steps, conns=4, tbl={"Get:" + L.hx(b"bigk"): "mb(" + L.hx(big) + ")"}, default="mb(7a7a7a)", trace=False),
+                           expect=[b"$6000\r\n" + big + b"\r\n", b"+PONG\r\n"],
+                           desc="a 6 KB reply waits for a slow client (%d bytes taken) while three other connections receive 48 array / bulk replies; then the slow client reads" % cap))
+    for c in run_cases(chk, cases2):
+        o = c["iobs"]
+        res0, evs0 = o.conns[0]
+        err = L.monitor_frames(evs0)
+        got = [w[1] for w in L.writes_of(evs0)]
+        if err or got != c["expect"]:
+            chk.violation("frame-mixed-with-other-connection", "%s: %s" % (c["desc"], err or ("the slow client read %r... instead of its own reply" % (got[0][:60] if got else None))),
+                          dict(case=c["line"], desc=c["desc"], impl=o.raw[:3000]))
+            continue
+        for ci in (1, 2, 3):
+            e2 = L.monitor_frames(o.conns[ci][1])
+            if e2:
+                chk.violation("bad-frame", "%s :: connection %d of: %s" % (e2, ci, c["desc"]), dict(case=c["line"], desc=c["desc"]))
+        validated += 1
     if broken and not chk.violations:
         chk.violation("proof-broken", broken, dict(broken=broken, theorem="GRP.C04"), True)
     chk.coverage.update(
@@ -409,14 +454,28 @@ def run_c05(tier, seed):
         cases.append(dict(kind="unknown", name=rng.choice(["NOSUCH", "GETX", "SE", "", "get k", "FLUSHALL", "ZADDX"]), args=[G.g_str(rng) for _ in range(rng.randint(0, 3))], exp=None, db=0, hres="ms(4f4b)"))
     for reg, sent in [("mycmd", "mycmd"), ("mycmd", "MYCMD"), ("MyCmd", "mYcMD"), ("MYCMD", "mycmd"), ("x1", "X1")]:
         cases.append(dict(kind="app", name=sent, args=[b"a", b"b"], exp=None, db=0, hres="ms(4f4b)", reg=reg))
-    for c in cases:
+    for ci_, c in enumerate(cases):
         sent = c.get("sent", c["name"])
         steps = []
         if c["db"]:
             steps.append((0, "f" + L.hx(G.request_bytes("SELECT", [str(c["db"]).encode()]))))
-        steps += [(0, "f" + L.hx(G.request_bytes(sent, c["args"]))), (0, "e")]
+        # delivery: whole, random k-way chunks, or one chunk per element boundary (the request arrives in several reads)
+        data = G.request_bytes(sent, c["args"])
+        mode = ("whole", "kway", "elements")[ci_ % 3]
+        if mode == "elements" and len(data) > 8:
+            cuts, off = [], 0
+            for part in data.split(b"\r\n$")[:-1]:
+                off += len(part) + 2
+                cuts.append(off)
+            cuts = [x for x in cuts if 0 < x < len(data)][:12]
+            parts = [data[a:b] for a, b in zip([0] + cuts, cuts + [len(data)])]
+            steps += [(0, "g" + L.hx(p_)) for p_ in parts[:-1]] + [(0, "f" + L.hx(parts[-1]))]
+        else:
+            steps += chunk_ops(rng, data, "whole" if mode == "whole" else "kway")
+        steps.append((0, "e"))
+        c["delivery"] = mode
         c["line"] = L.mkcase(steps, default=c["hres"], app=[c["reg"].encode()] if c.get("reg") else ())
-        c["desc"] = req_desc(sent, c["args"])[:300]
+        c["desc"] = req_desc(sent, c["args"])[:300] + " [delivered: %s]" % mode
     good = run_cases(chk, cases)
     validated, distinct, per_cmd = 0, set(), {}
     for c in good:
@@ -484,9 +543,19 @@ def run_c10(tier, seed):
             for sent in ([name] if tier == "quick" else [name, name.lower()]):
                 follow = rng.choice([("PING", [], b"+PONG\r\n"), ("ECHO", [b"z"], b"$1\r\nz\r\n")])
                 data = G.request_with_nulls(sent, args) + G.request_bytes(follow[0], follow[1]) + G.request_bytes("GET", [b"after"])
-                cases.append(dict(name=name, kind=kind, args=args, follow=follow, line=L.mkcase([(0, "f" + L.hx(data)), (0, "e")], default="mb(76)"),
+                cases.append(dict(name=name, kind=kind, args=args, follow=follow, db=0, line=L.mkcase([(0, "f" + L.hx(data)), (0, "e")], default="mb(76)"),
                                   desc="%s [%s]" % (req_desc(sent, args), kind)))
                 kinds[kind.split("@")[0]] = kinds.get(kind.split("@")[0], 0) + 1
+                if len(cases) % 4 == 0:
+                    # the same on a connection that has selected another database: the refusal must leave the selection alone
+                    cases.append(dict(name=name, kind=kind, args=args, follow=follow, db=3, line=L.mkcase([(0, "f" + L.hx(G.request_bytes("SELECT", [b"3"]) + data)), (0, "e")], default="mb(76)"),
+                                      desc="SELECT 3 ; %s [%s]" % (req_desc(sent, args), kind)))
+    # ill-formed SELECT on a connection that has selected database 3 (SELECT is answered by the framework itself)
+    for bad, kind in ([], "missing"), ([None], "null"), ([b"abc"], "non-numeric"), ([b"1.5"], "fraction"), ([b""], "empty"), ([b"99999999999999999999"], "overflow"), ([b"-"], "sign"), ([b"+"], "sign"):
+        follow = ("PING", [], b"+PONG\r\n")
+        data = G.request_bytes("SELECT", [b"3"]) + G.request_with_nulls("SELECT", bad) + G.request_bytes("PING", []) + G.request_bytes("GET", [b"after"])
+        cases.append(dict(name="SELECT", kind=kind, args=bad, follow=follow, db=3, line=L.mkcase([(0, "f" + L.hx(data)), (0, "e")], default="mb(76)"),
+                          desc="SELECT 3 ; %s [%s]" % (req_desc("SELECT", bad), kind)))
     # random corruption of valid requests (monitors: hang/panic/frames only)
     nrand = 600 if tier == "quick" else 8000
     for _ in range(nrand):
@@ -496,7 +565,7 @@ def run_c10(tier, seed):
             i = rng.randrange(len(args))
             args[i] = rng.choice([None, b"", b"abc", b"\x7f\x01", b"1.5", b"-", b"9x9"])
         data = G.request_with_nulls(nm, args) + G.request_bytes("PING", [])
-        cases.append(dict(name=nm, kind="random", args=args, follow=None, line=L.mkcase([(0, "f" + L.hx(data)), (0, "e")], default="mb(76)"), desc="%s [random corruption]" % req_desc(nm, args)))
+        cases.append(dict(name=nm, kind="random", args=args, follow=None, db=0, line=L.mkcase([(0, "f" + L.hx(data)), (0, "e")], default="mb(76)"), desc="%s [random corruption]" % req_desc(nm, args)))
     good = run_cases(chk, cases)
     validated, distinct = 0, set()
     for c in good:
@@ -509,8 +578,11 @@ def run_c10(tier, seed):
             continue
         if c["kind"] != "random":
             ws = L.writes_of(evs)
+            if c["db"]:
+                ws = ws[1:]               # the reply to the leading SELECT 3
             # handler calls made before the first reply belong to the rejected request
-            first_w = next((i for i, e in enumerate(evs) if e.startswith("W@") or e.startswith("WX@")), len(evs))
+            wpos = [i for i, e in enumerate(evs) if e.startswith("W@") or e.startswith("WX@")]
+            first_w = (wpos[1] if c["db"] and len(wpos) > 1 else (wpos[0] if wpos else len(evs)))
             early = [e for e in evs[:first_w] if e.startswith("C:")]
             if early or not ws or not ws[0][1].startswith(b"-"):
                 chk.violation("accepted:%s:%s" % (c["name"], c["kind"].split("@")[0]), "ill-formed request %s was not rejected cleanly: handler calls %s, reply %r" %
@@ -520,7 +592,7 @@ def run_c10(tier, seed):
                 chk.violation("after-reject", "requests after the rejected %s were not processed normally: replies %s" % (c["desc"], [w[1] for w in ws]), dict(case=c["line"], desc=c["desc"]))
                 continue
             later = L.calls_of(evs)
-            if len(later) != 1 or later[0][0] != 0 or not later[0][1] or later[0][4] != "Get(%s)" % L.hx(b"after"):
+            if len(later) != 1 or later[0][0] != c["db"] or not later[0][1] or later[0][4] != "Get(%s)" % L.hx(b"after"):
                 chk.violation("state-after-reject", "connection state changed by the rejected %s: later calls %s" % (c["desc"], later), dict(case=c["line"], desc=c["desc"]))
                 continue
         if not corr(chk, c):
